@@ -1,0 +1,68 @@
+//! Observation points for external verification tooling.
+//!
+//! Only compiled with the `verif` feature. Nothing in here changes behaviour;
+//! the functions expose crate-internal operations as they are.
+
+use crate::compound::{Compound, State};
+use crate::db::{Constant, Db};
+use crate::rational::Rational;
+use crate::unit::Unit;
+
+/// The entries of a compound unit in map order: unit, power, prefix.
+pub fn names(c: &Compound) -> Vec<(Unit, i32, i32)> {
+    c.verif_names()
+        .map(|(u, s): (&Unit, &State)| (*u, s.power, s.prefix))
+        .collect()
+}
+
+/// `Compound::factor` as used by `+`, `-` and `to` (`this` is the target).
+pub fn factor(this: &Compound, other: &Compound, mut value: Rational) -> Option<(bool, Rational)> {
+    match this.factor(other, &mut value) {
+        Ok(ok) => Some((ok, value)),
+        Err(..) => None,
+    }
+}
+
+/// `Compound::mul` as used by `*` (`n = 1`) and `/` (`n = -1`).
+pub fn mul(
+    this: &Compound,
+    other: &Compound,
+    n: i32,
+    mut lhs: Rational,
+    mut rhs: Rational,
+) -> Option<(Compound, Rational, Rational)> {
+    match this.mul(other, n, &mut lhs, &mut rhs) {
+        Ok(unit) => Some((unit, lhs, rhs)),
+        Err(..) => None,
+    }
+}
+
+/// The generated unit word parser: remainder, prefix and unit.
+pub fn unit_parse(s: &str) -> Option<(&str, i32, Unit)> {
+    crate::generated::unit::parse(s)
+}
+
+/// One raw step of the generated `Combined` lexer: variant name (`None` on a
+/// lexer error) and the number of bytes consumed.
+pub fn lex_step_combined(s: &str) -> Option<(Option<String>, usize)> {
+    crate::generated::unit::verif_step_combined(s)
+}
+
+/// One raw step of the generated `Units` lexer.
+pub fn lex_step_units(s: &str) -> Option<(Option<String>, usize)> {
+    crate::generated::unit::verif_step_units(s)
+}
+
+/// The best `k` matches of a lookup with their scores, in rank order.
+pub fn lookup_top(db: &Db, query: &str, k: usize) -> Result<Vec<(f32, Option<Constant>)>, String> {
+    db.verif_lookup_top(query, k)
+}
+
+/// Abort the process here when `ANYTHING_VERIF_CRASH_AT` names this point.
+pub fn crash_point(n: u32) {
+    if let Ok(at) = std::env::var("ANYTHING_VERIF_CRASH_AT") {
+        if at.trim().parse::<u32>().ok() == Some(n) {
+            std::process::abort();
+        }
+    }
+}
